@@ -65,25 +65,32 @@ class _TabulationCutoff(object):
     dr = _get_or_none(self._dr_attr, cp_tabulation_section, float)
     cutoff = _get_or_none(self._cutoff_attr, cp_tabulation_section, float)
 
-    if nr and dr and cutoff:
+    # Values must be positive. This is checked before the values are combined so that a zero
+    # can neither be mistaken for an option that was not given nor be divided by.
+    self._check_positive(nr, dr, cutoff)
+
+    if not nr is None and not dr is None and not cutoff is None:
       raise ConfigParserException("'{cutoff}', '{nr}' and '{dr}' cannot all be spcified in [Tabulation] section of potential definition.".format(**self._template_dict))
-    elif nr and dr:
+    elif not nr is None and not dr is None:
       # Set cutoff
       cutoff = (nr-1)*dr      
-    elif cutoff and dr:
+    elif not cutoff is None and not dr is None:
       # Set nr
       nr = (cutoff/dr) + 1
       nr = int(nr)
     elif not dr is None:
       raise ConfigParserException("'{dr}' cannot be specified without either '{nr}' or '{cutoff}' in [Tabulation] section of potential definition.".format(**self._template_dict))
 
+    self._check_positive(nr, dr, cutoff)
+    return nr, cutoff
+
+  def _check_positive(self, nr, dr, cutoff):
     if not nr is None and nr <= 0:
       raise ConfigParserException("'{nr}' in [Tabulation] section of potential definition cannot be 0 (zero) or negative.".format(**self._template_dict))
     if not dr is None and dr <= 0:
       raise ConfigParserException("'{dr}' in [Tabulation] section of potential definition cannot be 0 (zero) or negative.".format(**self._template_dict))
     if not cutoff is None and cutoff <= 0:
       raise ConfigParserException("'{cutoff}' in [Tabulation] section of potential definition cannot be 0 (zero) or negative.".format(**self._template_dict))
-    return nr, cutoff
 
 class _TabulationSection(object):
   """Represents the [Tabulation] section of a config file"""
